@@ -374,5 +374,8 @@ impl RespRec {
 }
 
 pub fn silence_panics() {
+    if std::env::var("TCSS_SHOW_PANICS").is_ok() {
+        return;
+    }
     std::panic::set_hook(Box::new(|_| {}));
 }
